@@ -42,5 +42,19 @@ func (p *Interpreter) VerifDump() string {
 	w("\nstreams: in=%d out=%d scanners=%d scanner=%v input=%v hadFiles=%v filenameIndex=%d", len(q.inputStreams), len(q.outputStreams), len(q.scanners), q.scanner != nil, q.input != nil, q.hadFiles, q.filenameIndex)
 	w("\nflags: noExec=%v noFileWrites=%v noFileReads=%v noArgVars=%v", q.noExec, q.noFileWrites, q.noFileReads, q.noArgVars)
 	w("\nexit=%d randSeed=%v checkCtx=%v", q.exitStatus, q.randSeed, q.checkCtx)
+	// C14 additions: remaining persistent fields that are not pure caches.
+	re := func(r interface{ String() string }, isNil bool) string {
+		if isNil {
+			return "<nil>"
+		}
+		return r.String()
+	}
+	w("\nregex: fs=%q rs=%q savedfs=%q", re(q.fieldSepRegex, q.fieldSepRegex == nil), re(q.recordSepRegex, q.recordSepRegex == nil), re(q.savedFieldSepRegex, q.savedFieldSepRegex == nil))
+	w("\nfieldsIsTrueStr=%v shell=%q natives=%d openFile=%v", q.fieldsIsTrueStr, q.shellCommand, len(q.nativeFuncs), q.openFile != nil)
+	csvBuffered := -1
+	if q.csvOutput != nil {
+		csvBuffered = q.csvOutput.Buffered()
+	}
+	w("\ncsvOutputBuffered=%d csvJoinBuf=%d ctxOps=%d ctxCancelled=%v", csvBuffered, q.csvJoinFieldsBuf.Len(), q.ctxOps, q.ctx != nil && q.ctx.Err() != nil)
 	return b.String()
 }
